@@ -253,6 +253,9 @@ func (its *PushPullHandler) commitToMongoDB() errors.OrdaError {
 	its.subClientDoc.UpdateAt()
 	if len(its.pushingOperations) > 0 {
 		if err := its.managers.Mongo.InsertOperations(its.ctx, its.pushingOperations); err != nil {
+			// The operations of an earlier push may be in the way: stored, but never recorded in the datatype
+			// document, because the server died or the database failed between the two writes of this function.
+			its.recordUnrecordedOperations()
 			return errors.PushPullAbortionOfServer.New(its.ctx.L(), err.Error())
 		}
 		its.ctx.L().Infof("commit %d OperationDocs", len(its.pushingOperations))
@@ -272,6 +275,49 @@ func (its *PushPullHandler) commitToMongoDB() errors.OrdaError {
 	return nil
 }
 
+// recordUnrecordedOperations completes a push whose operations were stored but whose datatype document was not
+// written. Storing the operations is the commit point of a push: operations beyond the recorded end of the
+// log are part of the log. The end of the log and the checkpoints of the clients that pushed them are brought
+// up to them, so that the retry of the failed request (and everybody else) finds them where they really are
+// instead of colliding with them on every attempt.
+func (its *PushPullHandler) recordUnrecordedOperations() {
+	datatypeDoc, err := its.managers.Mongo.GetDatatype(its.ctx, its.datatypeDoc.DUID)
+	if err != nil {
+		return
+	}
+	if datatypeDoc == nil { // the datatype document of a new datatype was the one that was never written
+		datatypeDoc = its.datatypeDoc
+		datatypeDoc.Sseq.End = 0
+		if its.subClientDoc != nil {
+			its.subClientDoc.CP = its.initialCP.Clone()
+		}
+	}
+	opList, sseqList, err := its.managers.Mongo.GetOperations(its.ctx, datatypeDoc.DUID, datatypeDoc.Sseq.End+1, constants.InfinitySseq)
+	if err != nil || len(sseqList) == 0 {
+		return
+	}
+	its.adoptUnrecordedOperations(datatypeDoc, opList, sseqList)
+	datatypeDoc.Sseq.End = sseqList[len(sseqList)-1]
+	if err := its.managers.Mongo.UpdateDatatype(its.ctx, datatypeDoc); err != nil {
+		its.ctx.L().Warnf("fail to record %d stored operations of %s: %v", len(sseqList), datatypeDoc.DUID, err)
+		return
+	}
+	its.ctx.L().Warnf("recorded %d stored operations of %s that an interrupted push had left behind", len(sseqList), datatypeDoc.DUID)
+}
+
+// adoptUnrecordedOperations moves the checkpoints of the clients whose stored operations lie beyond the recorded
+// end of the log up to those operations (they are acknowledged by being part of the log).
+func (its *PushPullHandler) adoptUnrecordedOperations(datatypeDoc *schema.DatatypeDoc, opList []*model.Operation, sseqList []uint64) {
+	for i, op := range opList {
+		if sseqList[i] <= datatypeDoc.Sseq.End {
+			continue
+		}
+		if client := datatypeDoc.GetClientInDatatypeDoc(op.ID.CUID, false); client != nil && client.CP.Cseq < op.ID.Seq {
+			client.CP.Cseq = op.ID.Seq
+		}
+	}
+}
+
 func (its *PushPullHandler) pullOperations() errors.OrdaError {
 	if its.clientDoc.GetType() == model.ClientType_VOLATILE {
 		return nil
@@ -284,6 +330,10 @@ func (its *PushPullHandler) pullOperations() errors.OrdaError {
 		}
 		if len(opList) > 0 {
 			its.currentCP.Sseq = sseqList[len(sseqList)-1] + (uint64)(len(its.pushingOperations))
+			// Operations beyond the recorded end of the log were stored by a push whose datatype document was
+			// never written. This request is about to record them as part of the log (the end follows what was
+			// pulled): the checkpoints of the clients that pushed them have to follow, too.
+			its.adoptUnrecordedOperations(its.datatypeDoc, opList, sseqList)
 		}
 		its.resPushPullPack.Operations = opList
 	}
